@@ -62,4 +62,23 @@ func TestClientWalk(t *testing.T) {
 			idx++
 		}
 	}
+	// the owner closes the ClientConn while calls are in flight (or before any), the callers go on, then the read fails
+	for v := 0; v < 6; v++ {
+		acts := []CAct{{Op: "unary", B: 21}, {Op: "stream"}}
+		if v%2 == 1 {
+			acts = append(acts, CAct{Op: "deliver", Env: &EnvSpec{Call: 1, Hdr: "ok:0", Body: i64(411), Trl: "none"}})
+		}
+		acts = append(acts, CAct{Op: "close"})
+		if v%3 == 1 {
+			acts = append(acts, CAct{Op: "unary", B: 22}, CAct{Op: "send", C: 1, B: 661})
+		}
+		if v%3 == 2 {
+			acts = append(acts, CAct{Op: "tick", B: 1000})
+		}
+		acts = append(acts, CAct{Op: "failread"}, CAct{Op: "recv", C: 1}, CAct{Op: "recv", C: 1}, CAct{Op: "unary", B: 23}, CAct{Op: "stream"})
+		if want(idx) {
+			runClientScenario(t, idx, "walk", clientScenario{Acts: acts, Tags: []string{"close-then-fail"}}, em)
+		}
+		idx++
+	}
 }
